@@ -424,6 +424,31 @@ func runC07(c *core.Ctx) {
 		}
 		bounds = append(bounds, fmt.Sprintf("every single-byte deletion/substitution of %d shipped programs evaluated under a 3000-step budget", n))
 	}
+	if ok && !c.Expired() {
+		// the register rewrite of loop and function bodies traces what it did (verbose / debug log level): C05's function
+		// programs of at most one parameter and its single loops
+		prev := log.GetLogLevel()
+		log.SetLogLevelQuiet(log.Debug)
+		nb := 0
+		ok = c05FnPrograms(false, func(fam, src string) bool {
+			if i := strings.Index(src, "func f("); i < 0 || strings.Contains(src[i:i+strings.IndexByte(src[i:], ')')], ",") { // functions of at most one parameter
+				return true
+			}
+			nb++
+			return do("dbg-fn", "", src)
+		})
+		if ok {
+			ok = c05LoopPrograms(false, func(fam, src string) bool {
+				if strings.Count(src, "for ") > 2 { // (one of them is the trailing probe loop)
+					return true
+				}
+				nb++
+				return do("dbg-loop", "", src)
+			})
+		}
+		log.SetLogLevelQuiet(prev)
+		bounds = append(bounds, fmt.Sprintf("at debug log level: %d function and single-loop programs of C05's families", nb))
+	}
 	c.P.Bound = strings.Join(bounds, "; ") + "; default and plain configuration"
 }
 
